@@ -225,6 +225,7 @@ func init() {
 	for _, t := range []string{"Int32", "Int64", "Uint32", "Uint64", "Uintptr"} {
 		reg("sync/atomic.Add"+t, func(ex *Exec, fr *frame, fn *ssa.Function, args []Value) Value {
 			p := args[0].(*Value)
+			ex.syncPoint()
 			atomicEv(ex, p, true)
 			var nv Value
 			quiet(ex, func() {
@@ -235,6 +236,7 @@ func init() {
 		})
 		reg("sync/atomic.Load"+t, func(ex *Exec, fr *frame, fn *ssa.Function, args []Value) Value {
 			p := args[0].(*Value)
+			ex.syncPoint()
 			atomicEv(ex, p, false)
 			var v Value
 			quiet(ex, func() { v = ex.load(p) })
@@ -242,6 +244,7 @@ func init() {
 		})
 		reg("sync/atomic.Store"+t, func(ex *Exec, fr *frame, fn *ssa.Function, args []Value) Value {
 			p := args[0].(*Value)
+			ex.syncPoint()
 			atomicEv(ex, p, true)
 			quiet(ex, func() { ex.store(p, args[1]) })
 			return nil
@@ -264,6 +267,7 @@ func (ex *Exec) syncMapOf(p *Value) *Map {
 
 func init() {
 	reg("(*sync.Map).Load", func(ex *Exec, fr *frame, fn *ssa.Function, args []Value) Value {
+		ex.syncPoint()
 		e := ex.mapFind(ex.syncMapOf(args[0].(*Value)), args[1])
 		if e == nil {
 			return Tuple{Iface{}, tFalse}
@@ -271,10 +275,12 @@ func init() {
 		return Tuple{e.v, tTrue}
 	})
 	reg("(*sync.Map).Store", func(ex *Exec, fr *frame, fn *ssa.Function, args []Value) Value {
+		ex.syncPoint()
 		ex.mapSet(ex.syncMapOf(args[0].(*Value)), args[1], args[2])
 		return nil
 	})
 	reg("(*sync.Map).LoadOrStore", func(ex *Exec, fr *frame, fn *ssa.Function, args []Value) Value {
+		ex.syncPoint()
 		m := ex.syncMapOf(args[0].(*Value))
 		if e := ex.mapFind(m, args[1]); e != nil {
 			return Tuple{e.v, tTrue}
@@ -283,6 +289,7 @@ func init() {
 		return Tuple{args[2], tFalse}
 	})
 	reg("(*sync.Map).LoadAndDelete", func(ex *Exec, fr *frame, fn *ssa.Function, args []Value) Value {
+		ex.syncPoint()
 		m := ex.syncMapOf(args[0].(*Value))
 		e := ex.mapFind(m, args[1])
 		if e == nil {
@@ -293,6 +300,7 @@ func init() {
 		return Tuple{v, tTrue}
 	})
 	reg("(*sync.Map).Delete", func(ex *Exec, fr *frame, fn *ssa.Function, args []Value) Value {
+		ex.syncPoint()
 		ex.mapDelete(ex.syncMapOf(args[0].(*Value)), args[1])
 		return nil
 	})
@@ -304,5 +312,141 @@ func init() {
 			}
 		}
 		return nil
+	})
+}
+
+// ---- verifInterleave: two invocations with ONE preemption ----
+//
+// verifInterleave(f0, f1) explores, besides "f0 then f1", every schedule in
+// which f0 is preempted just before its k-th synchronisation operation (atomic
+// load/store/add, atomic.Value, sync.Map, mutex acquisition while holding no
+// lock), f1 runs to completion, and f0 resumes. k is a free choice of the path.
+// The first invocation runs on its own goroutine of the executor with a strict
+// hand-off, so only one of the two ever touches the executor state.
+
+type interleaving struct {
+	k, count int
+	paused   chan struct{}
+	resume   chan bool
+	rs       *raceState
+}
+
+type abortInterleave struct{}
+
+const maxPreemptionPoints = 8
+
+func (ex *Exec) syncPoint() {
+	il := ex.il
+	if il == nil || il.k == 0 || len(il.rs.held) > 0 {
+		return
+	}
+	il.count++
+	if il.count == il.k {
+		il.paused <- struct{}{}
+		if ok := <-il.resume; !ok {
+			panic(abortInterleave{})
+		}
+	}
+}
+
+func init() {
+	harnessExt["verifInterleave"] = func(ex *Exec, fr *frame, fn *ssa.Function, args []Value) Value {
+		rs := ex.startRaceTracking()
+		ex.pathState["race"] = rs
+		k := 0
+		if ex.x != nil {
+			k = ex.x.choose(maxPreemptionPoints + 1)
+			ex.x.notes["preempt-first-invocation-before-sync-op"] = fmt.Sprint(k)
+		}
+		ex.stub("verifInterleave: schedules with at most one preemption of the first invocation, at its first 8 synchronisation operations")
+		il := &interleaving{k: k, paused: make(chan struct{}), resume: make(chan bool), rs: rs}
+		done := make(chan any, 1)
+		ex.il = il
+		rs.inv = 0
+		go func() {
+			defer func() { done <- recover() }()
+			ex.callValue(fr, args[0], nil, nil)
+		}()
+		finish := func() {
+			rs.inv = -1
+			ex.hooks = nil
+			ex.il = nil
+		}
+		select {
+		case <-il.paused:
+			held0 := rs.held
+			rs.held = map[string]string{}
+			rs.inv = 1
+			ex.il = nil
+			func() {
+				defer func() {
+					if p := recover(); p != nil {
+						il.resume <- false
+						<-done
+						finish()
+						panic(p)
+					}
+				}()
+				ex.callValue(fr, args[1], nil, nil)
+			}()
+			rs.held = held0
+			rs.inv = 0
+			il.resume <- true
+			if r := <-done; r != nil {
+				finish()
+				panic(r)
+			}
+		case r := <-done:
+			if r != nil {
+				finish()
+				panic(r)
+			}
+			if k > 0 && il.count < k {
+				// fewer synchronisation operations than k: same schedule as k = count+1..; prune duplicates
+				finish()
+				panic(pathEnd{"no such preemption point"})
+			}
+			rs.held = map[string]string{}
+			rs.inv = 1
+			ex.il = nil
+			ex.callValue(fr, args[1], nil, nil)
+		}
+		finish()
+		return nil
+	}
+
+	// sync/atomic.Value as a cell in a side table
+	valueCell := func(ex *Exec, p *Value) *Value {
+		key := fmt.Sprintf("atomicvalue:%p", p)
+		if c, ok := ex.pathState[key].(*Value); ok {
+			return c
+		}
+		c := new(Value)
+		*c = Iface{}
+		ex.pathState[key] = c
+		return c
+	}
+	reg("(*sync/atomic.Value).Load", func(ex *Exec, fr *frame, fn *ssa.Function, args []Value) Value {
+		ex.syncPoint()
+		return *valueCell(ex, args[0].(*Value))
+	})
+	reg("(*sync/atomic.Value).Store", func(ex *Exec, fr *frame, fn *ssa.Function, args []Value) Value {
+		ex.syncPoint()
+		if iv, ok := args[1].(Iface); ok && iv.t == nil {
+			ex.goPanic("sync/atomic: store of nil value into Value")
+		}
+		c := valueCell(ex, args[0].(*Value))
+		old := *c
+		*c = args[1]
+		ex.logUndo(func() { *c = old })
+		return nil
+	})
+	reg("(*sync/atomic.Value).Swap", func(ex *Exec, fr *frame, fn *ssa.Function, args []Value) Value {
+		ex.syncPoint()
+		c := valueCell(ex, args[0].(*Value))
+		old := *c
+		*c = args[1]
+		ex.logUndo(func() { *c = old })
+		return old
 	})
 }
